@@ -342,6 +342,7 @@ def parse_code(cl):
 
     i = 0
     frames = []
+    tannos = []
     while i < len(rest_lines):
         s = rest_lines[i].strip()
         if s == "Exception table:":
@@ -373,6 +374,27 @@ def parse_code(cl):
                 st, ln_ = int(m.group(1)), int(m.group(2))
                 res.append("  %s %d %d %s %s %s" % (kind, at(st), at(st + ln_), m.group(3), norm(m.group(4)), norm(m.group(5))))
                 i += 1
+            continue
+        m = re.match(r"^\d+: #(\d+)\(.*\): ([A-Z_]+)(.*)$", s)
+        if m and rest_lines[i].startswith("        "):
+            kind, det = m.group(2), m.group(3)
+            loc = re.search(r"location=\[(.*)\]", det)
+            path = loc.group(1).replace(" ", "") if loc else ""
+            det = re.sub(r",?\s*location=\[.*\]", "", det)
+            d = ""
+            rng = re.findall(r"\{start_pc=(\d+), length=(\d+), index=(\d+)\}", det)
+            if kind in ("LOCAL_VARIABLE", "RESOURCE_VARIABLE"):
+                d = "ranges=[%s]" % ",".join("%d-%d@%s" % (at(a), at(int(a) + int(b)), c) for a, b, c in rng)
+            elif kind == "EXCEPTION_PARAMETER":
+                d = "exc=%s" % re.search(r"exception_index=(\d+)", det).group(1)
+            else:
+                o = re.search(r"offset=(\d+)", det)
+                d = "at=%d" % at(o.group(1))
+                ti = re.search(r"type_index=(\d+)", det)
+                if ti:
+                    d += " index=%s" % ti.group(1)
+            tannos.append("  tanno %s %s path=[%s] type=%s" % (kind, d, path, utf8(int(m.group(1)))))
+            i += 1
             continue
         if s.startswith("StackMapTable:"):
             i += 1
@@ -422,6 +444,7 @@ def parse_code(cl):
             continue
         i += 1
     res.extend(frames)
+    res.extend(sorted(tannos))
     return res
 
 
